@@ -184,12 +184,15 @@ def run(s):
     s.oblige("C09.triclinic_refuses_underdetermined", triclinic_underdetermined, [F], kind="finite")
 
     # ---------------- 7. cij fill passes its options unchanged
+    for system in SYSTEMS:
+        if system != "triclinic":       # empty relations: the early return is the recorded finding C09.triclinic_refuses_underdetermined
+            s.oblige("C09.refusal_for_all_2^21_supplied_sets[%s]" % system, lambda system=system: all_subsets(system), [F, "cij/data/constraints/" + system], kind="finite")
     s.oblige("C09.cli_fill_callsite", cli_callsite, ["cli/fill.main"])
     # ---------------- relations lookup: every path binds `constraints`; file used; directory ignored  [F on the real function]
     s.oblige("C09.relations_lookup", lambda: lookup(fill), [F, "cij.data.get_data_fname"], kind="finite")
     # ---------------- bounded: sufficiency oracle vs real function; column types; perturbations away from the threshold
     bounded_decisions(s, fill, rnd)
-    s.min_obligations = 9
+    s.min_obligations = 17
 
 
 def native_decision(fill):
@@ -278,6 +281,101 @@ def lookup(fill):
         os.chdir(cwd)
         shutil.rmtree(tmp, ignore_errors=True)
     return core.proved("finite", "directory named like the system ignored; relations file given by path used")
+
+
+def all_subsets(system):
+    """the refusal decision for EVERY one of the 2^21 sets of supplied components, by block decomposition.
+
+    Code side (A-LSQ): fill_cij refuses iff rank([E_S; R]) < 21, R = the relation rows the real code hands to lstsq (captured on this run), and
+    rank([E_S; R]) = |S| + rank(R[:, not S]).  Spec side: S determines the invariant tensor iff the coordinate projection of the Laue-invariant subspace (specs/laue.py,
+    independent of the relation files) onto S is injective.  Components are grouped into blocks (connected through a relation row or an invariant basis vector); both ranks
+    are additive over blocks, so the two decisions agree for all 2^21 sets iff they agree for every subset of every block -- enumerated completely, exact arithmetic.
+    Numerical side: the singular values of [E_S; R] are the union of the blocks' singular values; the smallest non-zero one over all block subsets must exceed lstsq's
+    cut-off eps*max(M,N)*s_max by a wide margin, so that the floating-point rank equals the exact rank for every S."""
+    import itertools
+    Rf, _ = fill_env.relation_matrix(system)
+    R = sp.Matrix(Rf.shape[0], 21, lambda i, j: sp.nsimplify(Rf[i, j], rational=True)) if Rf.shape[0] else sp.zeros(0, 21)
+    if Rf.shape[0] and not numpy.array_equal(numpy.array(R.tolist(), dtype=float), Rf):
+        return core.unknown("finite", "%s: relation coefficients are not exactly representable rationals" % system)
+    basis = laue.invariant_basis(system)
+    B = sp.Matrix([[v[k] for v in basis] for k in range(21)]) if basis else sp.zeros(21, 0)
+    # blocks: connected components of the joint support graph
+    parent = list(range(21))
+
+    def find(x):
+        while parent[x] != x:
+            parent[x] = parent[parent[x]]
+            x = parent[x]
+        return x
+    for i in range(R.shape[0]):
+        sup = [j for j in range(21) if R[i, j] != 0]
+        for j in sup[1:]:
+            parent[find(j)] = find(sup[0])
+    for c in range(B.shape[1]):
+        sup = [j for j in range(21) if sp.simplify(B[j, c]) != 0]
+        for j in sup[1:]:
+            parent[find(j)] = find(sup[0])
+    blocks = {}
+    for j in range(21):
+        blocks.setdefault(find(j), []).append(j)
+    zero = lambda x: sp.simplify(x) == 0
+    n_sub, smin, smax = 0, None, 0.0
+    for blk in blocks.values():
+        rows = [i for i in range(R.shape[0]) if any(R[i, j] != 0 for j in blk)]
+        Rb = R.extract(rows, blk) if rows else sp.zeros(0, len(blk))
+        cols = [c for c in range(B.shape[1]) if any(not zero(B[j, c]) for j in blk)]
+        Bb = B.extract(blk, cols) if cols else sp.zeros(len(blk), 0)
+        if Bb.shape[1] and Bb.rank(iszerofunc=zero) != Bb.shape[1]:
+            return core.unknown("finite", "%s: invariant basis restricted to block %s is not independent" % (system, blk))
+        Rbf = numpy.array(Rb.tolist(), dtype=float).reshape(len(rows), len(blk))
+        for m in range(len(blk) + 1):
+            for S in itertools.combinations(range(len(blk)), m):
+                n_sub += 1
+                rest = [j for j in range(len(blk)) if j not in S]
+                r_code = (Rb.extract(list(range(Rb.shape[0])), rest).rank(iszerofunc=zero) if rest and Rb.shape[0] else 0)
+                accept = (r_code == len(rest))
+                suff = ((Bb.extract(list(S), list(range(Bb.shape[1]))).rank(iszerofunc=zero) if S and Bb.shape[1] else 0) == Bb.shape[1])
+                names = [NAMES[blk[j]] for j in S]
+                if accept != suff:
+                    return core.refuted("finite", "%s, block %s, supplied %s: the rank test of the code %s, but these components %s the invariant tensor of the block"
+                                        % (system, [NAMES[j] for j in blk], names, "accepts" if accept else "refuses", "determine" if suff else "do not determine"),
+                                        witness_id="subset:%s:%s" % (system, names), replay=native_subset(system, blk, S, suff))
+                A = numpy.vstack([numpy.eye(len(blk))[list(S)].reshape(len(S), len(blk)), Rbf])
+                sv = numpy.linalg.svd(A, compute_uv=False) if A.size else numpy.zeros(0)
+                exact_rank = len(S) + r_code
+                pos = sorted(sv, reverse=True)[:exact_rank]
+                rest_sv = sorted(sv, reverse=True)[exact_rank:]
+                if (pos and min(pos) < 1e-6) or (rest_sv and max(rest_sv) > 1e-9):
+                    return core.refuted("finite", "%s, block %s, supplied %s: singular values %s do not separate into %d non-zero and the rest zero" % (
+                        system, [NAMES[j] for j in blk], names, [float("%.3g" % x) for x in sv], exact_rank), witness_id="svd-gap:%s:%s" % (system, names), replay={"reproduced": True})
+                if pos:
+                    smin = min(pos) if smin is None else min(smin, min(pos))
+                    smax = max(smax, max(pos))
+    cutoff = numpy.finfo(float).eps * 64 * max(smax, 1.0)          # lstsq(rcond=None): eps * max(M, N) * largest singular value, M <= 21 + 43 rows
+    if smin is not None and smin < 1e6 * cutoff:
+        return core.refuted("finite", "%s: smallest non-zero singular value %.3g is not separated from lstsq's cut-off %.3g" % (system, smin, cutoff), witness_id="svd-gap:" + system,
+                            replay={"reproduced": True})
+    return core.proved("finite", "%s: %d blocks, %d block subsets enumerated exactly: rank([E_S; R]) = 21 <=> S determines the invariant tensor, for every one of the 2^21 supplied sets; "
+                                 "non-zero singular values within [%.3g, %.3g], lstsq cut-off %.1e" % (system, len(blocks), n_sub, smin or 0.0, smax, cutoff))
+
+
+def native_subset(system, blk, S, suff):
+    """replay of a block-subset disagreement on the real fill_cij: the block's supplied components plus every component of the other blocks"""
+    fill = fill_env.fill_module()
+    basis = numpy.array([[float(sp.N(x)) for x in v] for v in laue.invariant_basis(system)])
+    rnd = numpy.random.RandomState(1)
+    tens = (rnd.uniform(20, 400, size=(2, len(basis))) @ basis) if len(basis) else rnd.uniform(20, 400, size=(2, 21))
+    sup = [blk[j] for j in S] + [k for k in range(21) if k not in blk]
+    df = pandas.DataFrame({NAMES[k]: tens[:, k] for k in sup})
+    try:
+        fill.fill_cij(df.copy(), system)
+        got = "accepted"
+    except Warning:
+        got = "refused"
+    except Exception as e:
+        got = "raises %r" % (e,)
+    want = "accepted" if suff else "refused"
+    return {"reproduced": got != want, "system": system, "supplied": [NAMES[k] for k in sup], "observed": got, "expected": want}
 
 
 def bounded_decisions(s, fill, rnd):
@@ -430,16 +528,20 @@ def bounded_decisions(s, fill, rnd):
 
 MANIFEST = {
     "engine": "symnp", "category": "other",
-    "technique": "contract-based deductive verification of the decision logic (symbolic runs of the real fill_cij, lstsq as contract stub, z3); "
-                 "exact-rank sufficiency oracle vs the real function and environment clauses as bounded run-time contracts",
+    "technique": "contract-based deductive verification of the decision logic (symbolic runs of the real fill_cij, lstsq as contract stub, z3); the rank "
+                 "test decided for all 2^21 supplied sets per system by block decomposition of the captured relation rows (complete exact enumeration + singular-value "
+                 "gap); the real function against the exact-rank oracle and the environment clauses as bounded run-time contracts",
     "text": "On symbolic tables (values, solution and rank symbolic; all four flag combinations) every path of the real fill_cij is proved to "
             "raise Warning iff (rank<21 and not ignore_rank) or (a residual |a x-b|^2 exceeds the tolerance and not ignore_residuals), the "
             "residual being that of the captured system; accepted => each relation within sqrt(tol) (lemma); zero residual => supplied values "
-            "returned unchanged; the captured system is independent of column order and letter case; the CLI forwards its options; the "
+            "returned unchanged; the captured system is independent of column order and letter case; the CLI forwards its options; for each of the eight systems "
+            "with relations, rank([supplied rows; captured relation rows]) = 21 is shown equivalent to 'the supplied components determine the Laue-invariant tensor' for "
+            "EVERY one of the 2^21 supplied sets (components fall into blocks, every subset of every block enumerated with exact rank arithmetic; the non-zero singular "
+            "values stay 13 orders of magnitude above lstsq's cut-off, so the floating-point rank is the exact rank); the "
             "relations lookup ignores a same-named directory and uses a file given by path. Bounded: accept/refuse equals an independent "
             "exact rank computation on the Laue-invariant subspace for enumerated/random supplied subsets of all nine systems; large "
             "contradictions refused, ignore flags honoured; integer columns; pass-through columns. One known finding (least squares moves "
             "slightly inconsistent supplied values) is reported as KNOWN-FINDING.",
-    "note": "A-LSQ, pandas trusted; rank decisions are exercised away from the numerical threshold only; bounded part: 67 (quick) / 1542 "
+    "note": "A-LSQ (lstsq returns the rank of the matrix it is given, SVD accurate to 1e-12 relative), pandas trusted; contradiction sizes are exercised away from the tolerance only; bounded part: 67 (quick) / 1542 "
             "(thorough) subsets per system. Known finding listed in known_findings.json.",
 }
